@@ -27,10 +27,23 @@ def refinement(*conditions: Union[SymbolicExpression[T], bool, Predicate]) -> Sy
     current_node = SymbolicExpression._current_parent_()
     prev_parent = current_node._parent_
     current_node._parent_ = None
-    new_conditions_root = ExceptIf(SymbolicExpression._current_parent_(), new_branch)
+    new_conditions_root = ExceptIf(current_node, new_branch)
     new_branch._node_.weight = RDREdge.Refinement
-    new_conditions_root._parent_ = prev_parent
+    _replace_operand_(prev_parent, current_node, new_conditions_root)
     return new_conditions_root.right
+
+
+def _replace_operand_(parent: SymbolicExpression, old_operand: SymbolicExpression, new_operand: SymbolicExpression):
+    """
+    Put the new operand in the place the old operand had in its parent (the left or the right side of a binary
+    operator, or the child of a query descriptor).
+    """
+    new_operand._parent_ = parent
+    if isinstance(parent, BinaryOperator):
+        if parent.left is old_operand:
+            parent.left = new_operand
+        elif parent.right is old_operand:
+            parent.right = new_operand
 
 
 def alternative(*conditions: Union[SymbolicExpression[T], bool, Predicate]) -> SymbolicExpression[T]:
@@ -73,10 +86,16 @@ def alternative_or_next(type_: Union[RDREdge.Alternative, RDREdge.Next],
     """
     new_branch = chained_logic(AND, *conditions)
     current_node = SymbolicExpression._current_parent_()
-    if isinstance(current_node._parent_, (Alternative, Next)):
-        current_node = current_node._parent_
-    elif isinstance(current_node._parent_, ExceptIf) and current_node is current_node._parent_.left:
-        current_node = current_node._parent_
+    # The new branch is appended to the chain of alternatives of the current rule: climb from the rule to the rule
+    # together with its refinement, and over the alternatives/next rules that were already attached to it.
+    while True:
+        parent = current_node._parent_
+        if isinstance(parent, (Alternative, Next)):
+            current_node = parent
+        elif isinstance(parent, ExceptIf) and current_node is parent.left:
+            current_node = parent
+        else:
+            break
     prev_parent = current_node._parent_
     current_node._parent_ = None
     if type_ == RDREdge.Alternative:
@@ -86,7 +105,5 @@ def alternative_or_next(type_: Union[RDREdge.Alternative, RDREdge.Next],
     else:
         raise ValueError(f"Invalid type: {type_}, expected one of: {RDREdge.Alternative}, {RDREdge.Next}")
     new_branch._node_.weight = type_
-    new_conditions_root._parent_ = prev_parent
-    if isinstance(prev_parent, BinaryOperator):
-        prev_parent.right = new_conditions_root
+    _replace_operand_(prev_parent, current_node, new_conditions_root)
     return new_conditions_root.right
